@@ -115,7 +115,15 @@ def case_variant(case):
 def build_exchange(case, dispatcher):
     from basana.backtesting import exchange as bx, fees, liquidity, lending
     from basana.core.pair import Pair, PairInfo
-    fee = fees.NoFee() if case["fee"] is None else fees.Percentage(D(case["fee"][0]), D(case["fee"][1]))
+    if case["fee"] is None:
+        fee = fees.NoFee()
+    else:
+        pct, mn = D(case["fee"][0]), D(case["fee"][1])
+        if case_variant(case) & 64 and pct == pct.to_integral_value() and mn == mn.to_integral_value():
+            # whole numbers given as plain Python integers (Percentage(1), min_fee=5): the same scheme
+            fee = fees.Percentage(int(pct), int(mn))
+        else:
+            fee = fees.Percentage(pct, mn)
     if case["liq"] is None:
         liq_factory = liquidity.InfiniteLiquidity
     else:
@@ -132,9 +140,29 @@ def build_exchange(case, dispatcher):
                 interest_period=datetime.timedelta(seconds=int(c[2])), min_interest=D(c[3]),
                 margin_requirement=D(c[4]))
         lc = case["lend"]
-        lend = lending.MarginLoans(lc["quote"], default_conditions=None if lc["default"] is None else mk(lc["default"]))
-        for s, c in lc["conds"].items():
-            lend.set_conditions(s, mk(c))
+        if case_variant(case) & 128:
+            # a lending strategy derived from MarginLoans that keeps the conditions of each symbol itself and hands
+            # them out through get_conditions(): the conditions in force are what that method returns
+            class OwnConditions(lending.MarginLoans):
+                def __init__(self, quote_symbol, default, by_symbol):
+                    super().__init__(quote_symbol, default_conditions=None)
+                    self._own_default, self._own = default, dict(by_symbol)
+
+                def get_conditions(self, symbol):
+                    ret = self._own.get(symbol, self._own_default)
+                    if ret is None:
+                        return super().get_conditions(symbol)          # raises "No lending conditions for ..."
+                    return ret
+
+                def set_conditions(self, symbol, conditions):
+                    self._own[symbol] = conditions
+            lend = OwnConditions(lc["quote"], None if lc["default"] is None else mk(lc["default"]),
+                                 {s: mk(c) for s, c in lc["conds"].items()})
+        else:
+            lend = lending.MarginLoans(lc["quote"],
+                                       default_conditions=None if lc["default"] is None else mk(lc["default"]))
+            for s, c in lc["conds"].items():
+                lend.set_conditions(s, mk(c))
     dp = None if case["default_pair"] is None else PairInfo(*case["default_pair"])
     if case["lend"] is not None and case_variant(case) & 2:
         # the lending configuration object served an earlier backtest (another exchange, another account) before this one
@@ -300,6 +328,10 @@ async def _run_case(case, max_concurrent=1):
     async def do_action(a):
         from basana.core.enums import OrderOperation
         kind = a[0]
+        if case_variant(case) & 32:
+            # a strategy that re-seeds the global random generator whenever it acts ("reproducible noise")
+            import random as _random
+            _random.seed(7)
         if kind == "spend":
             # a strategy that sizes its order from what get_balances() reports right now: a fraction of the available
             # quote currency at the given limit price.  What is recorded (and replayed by the model) is the request made.
